@@ -222,4 +222,164 @@ theorem fromSparse_untouched (cells : List (Nat × Nat × α)) (r : Rng α) (h :
       simpa using hno c (List.mem_reverse.mp hc)
     rw [this]; split <;> rfl
 
+/-! ## `set_value` -/
+
+/-- growing only pads with default cells: no visible value changes -/
+theorem grow_valAt (r : Rng α) (row col : Nat) (hi : Inv r) (hne : r.inner.length ≠ 0)
+    (hpre : r.sr ≤ row ∧ r.sc ≤ col) (p q : Nat) : (grow r row col).valAt p q = r.valAt p q := by
+  obtain ⟨hgi, hgne, g1, g2, g3, g4⟩ := inv_grow r row col hi hne hpre
+  obtain ⟨hord1, hord2⟩ := hi.ord hne
+  have hw : r.width = r.ec - r.sc + 1 := hi.width_eq hne
+  have hh : r.height = r.er - r.sr + 1 := hi.height_eq hne
+  have hgw := hgi.width_eq hgne
+  rw [g2, g4] at hgw
+  have hlen := hi.len
+  have hwpos : 0 < r.width := by omega
+  have hnc : nChunks r.inner.length r.width = r.height := by rw [hlen]; exact nChunks_mul _ _ hwpos
+  by_cases hing : r.sr ≤ p ∧ p ≤ max r.er row ∧ r.sc ≤ q ∧ q ≤ max r.ec col
+  · rw [valAt_of_in _ p q hgne (by rw [g1, g2, g3, g4]; exact hing), g1, g2, hgw]
+    by_cases hc : r.ec < col
+    · have hg : (grow r row col).inner = padRows r.width (col - r.sc + 1 - r.width) r.height r.inner
+          ++ List.replicate ((col - r.sc + 1) * ((if r.er < row then row - r.sr + 1 else r.height) - r.height)) default := by
+        simp only [grow, hc, if_true, hnc]
+      rw [hg, getD_append_replicate_default]
+      have hmx : max r.ec col - r.sc + 1 = r.width + (col - r.sc + 1 - r.width) := by omega
+      rw [hmx, padRows_getD _ _ _ _ hlen _ _ (by omega)]
+      by_cases hin : p ≤ r.er ∧ q ≤ r.ec
+      · rw [if_pos (by omega), valAt_of_in r p q hne (by omega)]
+      · rw [if_neg (by omega), valAt_of_out r p q (by omega)]
+    · by_cases hr : r.er < row
+      · have hg : (grow r row col).inner = r.inner ++ List.replicate ((row - r.er) * r.width) default := by
+          simp only [grow, hc, hr, if_true, if_false]
+        rw [hg, getD_append_replicate_default]
+        have hmx : max r.ec col - r.sc + 1 = r.width := by omega
+        rw [hmx]
+        by_cases hin : p ≤ r.er
+        · rw [valAt_of_in r p q hne (by omega)]
+        · rw [valAt_of_out r p q (by omega), List.getD_eq_getElem?_getD, List.getElem?_eq_none]; · rfl
+          rw [hlen]
+          have : r.height * r.width ≤ (p - r.sr) * r.width := Nat.mul_le_mul_right _ (by omega)
+          omega
+      · have hg : grow r row col = r := by simp only [grow, hc, hr, if_false]
+        rw [hg, valAt_of_in r p q hne (by omega)]
+        have hmx : max r.ec col - r.sc + 1 = r.width := by omega
+        rw [hmx]
+  · rw [valAt_of_out _ p q (by rw [g1, g2, g3, g4]; omega), valAt_of_out r p q (by omega)]
+
+/-- `set_value` (when it returns: non-empty range, position at or beyond the start corner): the rectangle grows
+    to the bounding box of the old rectangle and the position, the addressed cell holds the value, every
+    other position is unchanged (default outside the old rectangle) -/
+theorem setValue_spec (r : Rng α) (row col : Nat) (v : α) (hi : Inv r) (r2 : Rng α)
+    (h : setValue r row col v = .ok r2) :
+    r.inner.length ≠ 0 ∧ r.sr ≤ row ∧ r.sc ≤ col ∧
+    r2.start = some (r.sr, r.sc) ∧ r2.end_ = some (max r.er row, max r.ec col) ∧
+    r2.valAt row col = v ∧ ∀ p q, ¬ (p = row ∧ q = col) → r2.valAt p q = r.valAt p q := by
+  have hinv2 := inv_setValue r row col v hi r2 h
+  unfold setValue at h
+  split at h; · cases h
+  rename_i hpre
+  split at h; · cases h
+  rename_i hne
+  split at h; · cases h
+  have hpre' : r.sr ≤ row ∧ r.sc ≤ col := Classical.not_not.mp hpre
+  obtain ⟨hgi, hgne, g1, g2, g3, g4⟩ := inv_grow r row col hi hne hpre'
+  have hgv := grow_valAt r row col hi hne hpre'
+  generalize grow r row col = g at *
+  simp only at h
+  split at h
+  · rename_i hidx
+    injection h with h
+    have e1 : r2.sr = g.sr := by rw [← h]
+    have e2 : r2.sc = g.sc := by rw [← h]
+    have e3 : r2.er = g.er := by rw [← h]
+    have e4 : r2.ec = g.ec := by rw [← h]
+    have e5 : r2.inner = g.inner.set ((row - g.sr) * g.width + (col - g.sc)) v := by rw [← h]
+    clear h
+    have hne2 : r2.inner.length ≠ 0 := by rw [e5, List.length_set]; exact hgne
+    have hgw := hgi.width_eq hgne
+    have hw2 := hinv2.width_eq hne2
+    refine ⟨hne, hpre'.1, hpre'.2, ?_, ?_, ?_, ?_⟩
+    · simp only [Rng.start, hne2, if_false, e1, e2, g1, g2]
+    · simp only [Rng.end_, hne2, if_false, e3, e4, g3, g4]
+    · rw [valAt_of_in r2 row col hne2 (by omega), hw2, e1, e2, e4, ← hgw, e5,
+        List.getD_eq_getElem?_getD, List.getElem?_set]
+      simp [hidx]
+    · intro p q hpq
+      rw [← hgv p q]
+      by_cases hin : g.sr ≤ p ∧ p ≤ g.er ∧ g.sc ≤ q ∧ q ≤ g.ec
+      · rw [valAt_of_in r2 p q hne2 (by omega), valAt_of_in g p q hgne hin, hw2, e1, e2, e4, ← hgw, e5,
+          List.getD_eq_getElem?_getD, List.getElem?_set, if_neg, ← List.getD_eq_getElem?_getD]
+        intro heq
+        have := rowmajor_inj (by rw [hgw]; omega) (by rw [hgw]; omega) heq
+        omega
+      · rw [valAt_of_out r2 p q (by omega), valAt_of_out g p q (by omega)]
+  · cases h
+
+/-! ## no panic under the documented preconditions -/
+
+theorem setValue_of_pre (r : Rng α) (row col : Nat) (v : α) (hi : Inv r)
+    (h : Pre r (.setValue row col v)) : ∃ r', setValue r row col v = .ok r' := by
+  obtain ⟨hne, h1, h2, h3, h4⟩ := h
+  obtain ⟨hgi, hgne, g1, g2, g3, g4⟩ := inv_grow r row col hi hne ⟨h1, h2⟩
+  have hgw := hgi.width_eq hgne
+  have hgh := hgi.height_eq hgne
+  have hgl := hgi.len
+  unfold setValue
+  rw [if_neg (by omega), if_neg hne, if_neg (by omega)]
+  simp only
+  rw [if_pos]; · exact ⟨_, rfl⟩
+  rw [hgl]
+  apply mul_add_lt_mul <;> omega
+
+/-! ## every history -/
+
+/-- every operation preserves the rectangle invariant -/
+theorem inv_step (r : Rng α) (hi : Inv r) (op : Op α) (r' : Rng α) (h : step r op = .ok r') : Inv r' := by
+  cases op with
+  | new sr sc er ec => exact (inv_new sr sc er ec r' h).1
+  | empty => simp only [step] at h; injection h with h; subst h; exact inv_empty
+  | fromSparse cells => exact (inv_fromSparse cells r' h).1
+  | setValue row col v => exact inv_setValue r row col v hi r' h
+  | range sr sc er ec => exact (inv_range r hi sr sc er ec r' h).1
+
+theorem inv_runFrom : ∀ (ops : List (Op α)) (r : Rng α), Inv r → ∀ r', runFrom r ops = .ok r' → Inv r'
+  | [], r, hi, r', h => by simp only [runFrom] at h; injection h with h; subst h; exact hi
+  | op :: ops, r, hi, r', h => by
+    simp only [runFrom] at h
+    split at h
+    · rename_i r1 hs
+      exact inv_runFrom ops r1 (inv_step r hi op r1 hs) r' h
+    all_goals cases h
+
+/-- **the rectangle invariant holds after every history** of constructions and mutations that returns
+    (whatever the arguments: a violated precondition makes the history panic, never corrupts the range) -/
+theorem inv_reachable (ops : List (Op α)) (r : Rng α) (h : run ops = .ok r) : Inv r :=
+  inv_runFrom ops empty inv_empty r h
+
+/-- an operation whose documented precondition holds in a consistent range returns (no panic) and the result
+    is consistent -/
+theorem step_ok (r : Rng α) (hi : Inv r) (op : Op α) (hp : Pre r op) : ∃ r', step r op = .ok r' ∧ Inv r' := by
+  have : ∃ r', step r op = .ok r' := by
+    cases op with
+    | new sr sc er ec => exact ⟨_, new_of_pre sr sc er ec hp⟩
+    | empty => exact ⟨_, rfl⟩
+    | fromSparse cells => exact fromSparse_of_pre cells hp
+    | setValue row col v => exact setValue_of_pre r row col v hi hp
+    | range sr sc er ec => exact range_of_pre r sr sc er ec hp
+  obtain ⟨r', h⟩ := this
+  exact ⟨r', h, inv_step r hi op r' h⟩
+
+theorem runFrom_ok : ∀ (ops : List (Op α)) (r : Rng α), Inv r → Safe r ops →
+    ∃ r', runFrom r ops = .ok r' ∧ Inv r'
+  | [], r, hi, _ => ⟨r, rfl, hi⟩
+  | op :: ops, r, hi, hs => by
+    obtain ⟨r1, h1, hi1⟩ := step_ok r hi op hs.1
+    obtain ⟨r', h', hi'⟩ := runFrom_ok ops r1 hi1 (hs.2 r1 h1)
+    exact ⟨r', by simp only [runFrom, h1, h'], hi'⟩
+
+/-- **no panic under the documented preconditions**: a history in which every operation meets its
+    precondition in the state it is applied to runs to completion and ends in a consistent rectangle -/
+theorem run_ok (ops : List (Op α)) (hs : Safe empty ops) : ∃ r, run ops = .ok r ∧ Inv r :=
+  runFrom_ok ops empty inv_empty hs
+
 end Range
